@@ -251,5 +251,12 @@ def check(ctx):
             "with an integer pressure array (int32) and integer scalars, every product/power formed before a float operand joins stays below 2^31 over the declared input box: the parent's values (hence its derivative) are otherwise wrong where the derivative function is right",
             signature="; ".join(x.expr for x in fs)[:160], overflowing=[f"line {x.node.lineno}: {x.expr} may reach {x.bound:.3g}" for x in fs],
         )
-    check_split(ctx, "C13-k", "C13-k", names=["solution_gor_Standing"])
+    import ast as _ast
+
+    split_names = ["solution_gor_Standing"]
+    for cand in ("oil_compressibility_Standing", "dgor_dpressure_Standing"):
+        fi_ = P.functions.get(OIL + cand)
+        if fi_ is not None and any(isinstance(n_, _ast.Call) and _ast.unparse(n_.func).split(".")[-1] in ("ndim", "isscalar") and n_.args and _ast.unparse(n_.args[0]) == "pressure" for n_ in _ast.walk(fi_.node)):
+            split_names.append(cand)  # the function has acquired an array branch: it has to agree with the scalar one
+    check_split(ctx, "C13-k", "C13-k", names=split_names)
     ctx.floor("C13", len(ctx.obligs), 8, "derivative obligations")
